@@ -48,7 +48,7 @@ func init() {
 			signal.Notify(sigterm, syscall.SIGTERM)
 		},
 		Floors: func(tier string) map[string]int64 {
-			return map[string]int64{"corrupted_proposals_delivered": 80, "nil_prevotes_on_corrupted_proposal": 150, "commits": 300, "corruptions_at_height_ge2": 30, "recovered_next_round_commit": 40, "corrupted_proposals_with_pol_round": 8, "total_power_mod3=2": 8, "corruption:lastcommit/too-few-precommits": 8}
+			return map[string]int64{"corrupted_proposals_delivered": 80, "nil_prevotes_on_corrupted_proposal": 150, "commits": 300, "corruptions_at_height_ge2": 30, "recovered_next_round_commit": 40, "corrupted_proposals_with_pol_round": 8, "total_power_mod3=2": 8, "corruption:lastcommit/too-few-precommits": 8, "same_header_twins_validated": 300}
 		},
 	})
 }
@@ -504,6 +504,7 @@ func run(c *core.Ctx) {
 		}
 	}
 	cor := corruptions[ci]
+	twins := 0
 	targetH := cor.MinH + uint64(r.Intn(3))
 	if strings.HasSuffix(cor.Name, "-at-first-height") {
 		targetH = 1
@@ -572,6 +573,78 @@ func run(c *core.Ctx) {
 			if err != nil {
 				c.Inconclusive("reencode: " + err.Error())
 				return
+			}
+			// Side oracle, same-header twins: validation must be a function of the block's CONTENT. The honest
+			// block is validated first on this node's executor (as the node does when the proposal arrives), then
+			// bodies that differ from it under the very same header (same block hash, no derived hash re-computed).
+			// Nothing of this is gossiped (votes could not tell the twins apart by hash).
+			if twins < 3 {
+				if ok := func() (ok bool) {
+					defer func() {
+						if p := recover(); p != nil {
+							sim.Mon.Violate("validateblock-panics/same-header-twin", fmt.Sprintf("ValidateBlock panicked on a same-header twin: %v", p))
+						}
+					}()
+					st := n.CS.VerifStatus()
+					if err := apps[n.ID].N.BlockExec.ValidateBlock(st, fresh); err != nil {
+						return false // not a valid base (e.g. the node is between heights): nothing to compare
+					}
+					for _, tw := range []struct {
+						name string
+						mut  func(b *types.Block) bool
+					}{
+						{"last-commit-signature-changed", func(b *types.Block) bool {
+							for _, pc := range b.LastCommit.Precommits {
+								if pc != nil {
+									if sig, ok := pc.Signature.(crypto.SignatureEd25519); ok {
+										sig[r.Intn(64)] ^= 0x10
+										pc.Signature = sig
+										return true
+									}
+								}
+							}
+							return false
+						}},
+						{"last-commit-precommit-dropped", func(b *types.Block) bool {
+							for i, pc := range b.LastCommit.Precommits {
+								if pc != nil {
+									b.LastCommit.Precommits[i] = nil
+									return true
+								}
+							}
+							return false
+						}},
+						{"tx-dropped", func(b *types.Block) bool {
+							if len(b.Data.Txs) == 0 {
+								return false
+							}
+							b.Data.Txs = b.Data.Txs[:len(b.Data.Txs)-1]
+							return true
+						}},
+						{"evidence-dropped", func(b *types.Block) bool {
+							if len(b.Evidence.Evidence) == 0 {
+								return false
+							}
+							b.Evidence.Evidence = b.Evidence.Evidence[:len(b.Evidence.Evidence)-1]
+							return true
+						}},
+					} {
+						twin, err := reencode(fresh)
+						if err != nil || !tw.mut(twin) {
+							continue
+						}
+						if twin, err = reencode(twin); err != nil || twin.Hash() != fresh.Hash() {
+							continue
+						}
+						c.Count("same_header_twins_validated", 1)
+						if err := apps[n.ID].N.BlockExec.ValidateBlock(st, twin); err == nil {
+							sim.Mon.Violate("validateblock-accepts/same-header-twin/"+tw.name, fmt.Sprintf("after the honest block of height %d was validated, ValidateBlock accepted a block with the same header (same block hash) and another body: %s", fresh.Height, tw.name))
+						}
+					}
+					return true
+				}(); ok {
+					twins++
+				}
 			}
 			name := ""
 			if !haveCorrupted && rs.Height >= targetH {
